@@ -9,7 +9,8 @@ import toy
 from props import c02, c08
 
 REQUIRED_THEOREMS = ['C19_eval_preserves_equiv', 'C19_sequence_is_pointwise', 'C19_interleave',
-                     'C19_switch_history_free', 'C19_result_stable', 'C19_alias_counterexample']
+                     'C19_switch_history_free', 'C19_result_stable', 'C19_alias_counterexample',
+                     'C19_frame', 'C19_deep_copy_isolated', 'C19_mixed_history', 'C19_shared_cell_counterexample']
 RULE = ('for every kind of evaluable object (reduced error / mechanistic / population models, individual and '
         'hierarchical likelihoods and posteriors with and without fixed parameters, predictive models) a random '
         'interleaving (with repeats) of all its evaluation calls at several inputs is compared, call by call, with '
@@ -305,6 +306,87 @@ def model_correspondence(ctx, chi, rng):
     ctx.agree('C19.names_after_sequence', m.parameters(), [n for n, b in zip(names, mo[1]) if not b], inp)
 
 
+def world_correspondence(ctx, chi, rng):
+    """a store of objects: reduced error models the caller keeps (ingredients) and likelihoods built from
+    them at various moments; fixes, releases and evaluations on all of them in random order. At every
+    evaluation the vector the wrapped error model receives is compared with the Lean store model in which a
+    derived object owns a deep copy of its ingredient's state (Ownership.deepCopy / C19_frame)."""
+    base = c08.em_classes(chi)[int(rng.integers(4))]
+    Rec = type('RecW' + base.__name__, (c08.RecEM, base), {})
+    names = base().get_parameter_names()
+    n = int(rng.integers(1, 4))
+    times = list(np.sort(rng.choice(np.arange(1, 12) * 0.5, n, replace=False)))
+    obs = list(rng.uniform(0.5, 2.0, n))
+    yb = rng.uniform(0.5, 2.0, n)
+    cells, prog, seen = {}, [], []
+
+    def some_req():
+        d = []
+        for j in rng.choice(len(names), size=int(rng.integers(1, len(names) + 1)), replace=False):
+            d.append([names[j], None if rng.random() < 0.3 else float(rng.uniform(0.3, 1.5))])
+        return d
+
+    def new(k):
+        cells[k] = ('em', chi.ReducedErrorModel(Rec()))
+        prog.append(['new', k])
+
+    def derive(src, dst):
+        cells[dst] = ('ll', chi.LogLikelihood(toy.ToyModel(1, 1, 3), cells[src][1], obs, times))
+        prog.append(['derive', src, dst])
+
+    def fix(k):
+        d = some_req()
+        cells[k][1].fix_parameters({a: b for a, b in d})
+        prog.append(['fix', k, d])
+
+    def free_names(k):
+        kind, o = cells[k]
+        nm = o.get_parameter_names()
+        return nm if kind == 'em' else nm[1:]
+
+    def ev(k):
+        kind, o = cells[k]
+        free = list(rng.uniform(0.3, 1.5, len(free_names(k))))
+        Rec.last = None
+        with np.errstate(all='ignore'):
+            if kind == 'em':
+                o.compute_log_likelihood(np.array(free), yb, np.array(obs))
+            else:
+                o(np.array([1.1] + free))
+        seen.append(None if Rec.last is None else list(Rec.last))
+        prog.append(['eval', k, free])
+
+    new(0)
+    if rng.random() < 0.6:
+        fix(0)
+    derive(0, 1)
+    derive(0, 2)
+    nxt = 3
+    for _ in range(int(rng.integers(5, 14))):
+        r = rng.random()
+        ks = sorted(cells)
+        if r < 0.4:
+            fix(int(rng.choice(ks)))
+        elif r < 0.85:
+            ev(int(rng.choice(ks)))
+        elif r < 0.93:
+            src = int(rng.choice([k for k in ks if cells[k][0] == 'em']))
+            derive(src, nxt)
+            nxt += 1
+        else:
+            new(nxt)
+            nxt += 1
+    for k in sorted(cells):
+        ev(k)
+    inp = {'error_model': base.__name__, 'program': prog}
+    ctx.case('object-store/%d-objects' % len(cells), nontrivial='store/%s/%d' % (base.__name__, len(prog)), sample=inp)
+    ks = sorted(cells)
+    mo = ctx.model('C19.world', names, prog, ks)
+    ctx.agree('C19.store/vector_seen_by_wrapped_model', seen, mo[0], inp)
+    masks = [[nm not in free_names(k) for nm in names] for k in ks]
+    ctx.agree('C19.store/final_masks', masks, mo[1], inp)
+
+
 def siblings_and_later_mutation(ctx, chi, rng):
     mech = toy.ToyModel(2, 2, int(rng.integers(100)))
     ems = [chi.GaussianErrorModel(), chi.LogNormalErrorModel()]
@@ -446,6 +528,8 @@ def run(ctx):
         ctx.guard(interleave_case, ctx, kind, build, ev, xs, ext, rng)
         if i % 3 == 0:
             ctx.guard(model_correspondence, ctx, chi, ctx.sub_rng(10 ** 5 + i))
+        if i % 2 == 0:
+            ctx.guard(world_correspondence, ctx, chi, ctx.sub_rng(4 * 10 ** 5 + i))
         if i % 10 == 0:
             ctx.guard(siblings_and_later_mutation, ctx, chi, ctx.sub_rng(10 ** 6 + i))
             ctx.guard(reduced_user_model, ctx, chi, ctx.sub_rng(2 * 10 ** 6 + i))
